@@ -45,7 +45,7 @@ fn ring_summary(r: &HashRing) -> (String, bool) {
     let mut ps: Vec<u64> = pos.iter().map(|x| x.0).collect();
     ps.sort();
     let inj = ps.windows(2).all(|w| w[0] != w[1]);
-    let mut s = format!("ring {} {} inj={} phys", pos.len(), h, inj as u8);
+    let mut s = format!("ring {} {} inj={} rf={} n={} ver={} phys", pos.len(), h, inj as u8, r.replication_factor(), r.node_count(), r.version());
     for n in r.nodes() {
         s.push_str(&format!(" {}", n.0));
     }
@@ -120,6 +120,54 @@ impl Ctx {
         let a = format!("r {}", res.iter().map(|x| csv(x)).collect::<Vec<_>>().join("|"));
         self.out.op(l, a);
         res
+    }
+
+    /// `OBS` line: is_responsible / is_responsible_with_rf / get_primary / contains_node for
+    /// (key, node) pairs, checked against get_replicas on the real ring
+    fn op_observers(&mut self, r: &HashRing, pairs: &[(String, u64)], rf: usize) {
+        let mut l = format!("OBS {} {}", rf, pairs.len());
+        let mut a = Vec::new();
+        for (k, n) in pairs {
+            l.push_str(&format!(" {} {}", HashRing::verif_key_position(k), n));
+            let node = ReplicaId::new(*n);
+            let (resp, resp_rf, prim, has) = (r.is_responsible(k, node), r.is_responsible_with_rf(k, node, rf), r.get_primary(k), r.contains_node(node));
+            a.push(format!("{}:{}:{}:{}", resp as u8, resp_rf as u8, prim.map(|p| p.0.to_string()).unwrap_or("-".into()), has as u8));
+            let reps = r.get_replicas(k);
+            let reps_rf = r.get_replicas_with_rf(k, rf);
+            if resp != reps.contains(&node) || resp_rf != reps_rf.contains(&node) || prim != reps.first().cloned() || has != r.nodes().contains(&node) {
+                self.out.violation("C19:observers:disagree-with-replica-list",
+                    "is_responsible / is_responsible_with_rf / get_primary / contains_node disagree with get_replicas / nodes()",
+                    json!({"key": k, "node": n, "rf": rf, "replicas": ids(&reps), "replicas_rf": ids(&reps_rf), "is_responsible": resp, "is_responsible_with_rf": resp_rf, "primary": prim.map(|p| p.0), "contains_node": has}));
+            }
+        }
+        self.out.op(l, format!("o {}", a.join("|")));
+        self.out.count("observers:probed");
+    }
+
+    /// `STATS` line: get_distribution_stats (the integer fields)
+    fn op_stats(&mut self, r: &HashRing, keys: &[String]) {
+        let refs: Vec<&str> = keys.iter().map(|k| k.as_str()).collect();
+        let st = r.get_distribution_stats(&refs);
+        let mut l = format!("STATS {}", keys.len());
+        for k in keys {
+            l.push_str(&format!(" {}", HashRing::verif_key_position(k)));
+        }
+        self.out.op(l, format!("stats {} {} {}", st.total_assignments, st.min_per_node, st.max_per_node));
+    }
+
+    /// `NEWD` line: HashRing::with_defaults
+    fn op_new_defaults(&mut self, nodes: &[u64]) -> HashRing {
+        for n in nodes {
+            self.define(*n);
+        }
+        let r = HashRing::with_defaults(nodes.iter().map(|n| ReplicaId::new(*n)).collect());
+        let (s, _) = ring_summary(&r);
+        let mut l = format!("NEWD {}", nodes.len());
+        for n in nodes {
+            l.push_str(&format!(" {}", n));
+        }
+        self.out.op(l, s);
+        r
     }
 
     fn op_targets(&mut self, r: &HashRing, keys: &[String], sender: u64) -> Vec<Vec<u64>> {
@@ -206,22 +254,47 @@ struct RouterSpec {
     selective: bool,
     peer_ids: Vec<u64>, // kind = new
     npeers: usize,      // kind = cfg
+    /// kind = cfg: ReplicationConfig.partitioned_mode / .enabled (uses_selective_gossip = all three)
+    partitioned: bool,
+    enabled: bool,
+}
+
+impl RouterSpec {
+    fn effective_selective(&self) -> bool {
+        if self.kind == "cfg" { self.selective && self.partitioned && self.enabled } else { self.selective }
+    }
 }
 
 fn build_router(spec: &RouterSpec, ring: &HashRing) -> (GossipRouter, ReplicationConfig) {
+    let (rt, cfg, _) = build_router_shared(spec, ring);
+    (rt, cfg)
+}
+
+/// … also returns the ring the router shares (`Arc<RwLock<HashRing>>`: a membership change made
+/// through it must be seen by the router)
+fn build_router_shared(spec: &RouterSpec, ring: &HashRing) -> (GossipRouter, ReplicationConfig, Arc<RwLock<HashRing>>) {
     let arc = Arc::new(RwLock::new(ring.clone()));
+    let shared = arc.clone();
+    let (rt, cfg) = build_router_on(spec, arc, ring.replication_factor());
+    (rt, cfg, shared)
+}
+
+fn build_router_on(spec: &RouterSpec, arc: Arc<RwLock<HashRing>>, rf: usize) -> (GossipRouter, ReplicationConfig) {
+    let ring_rf = rf;
     if spec.kind == "new" {
         let mut m = HashMap::new();
         for (i, id) in spec.peer_ids.iter().enumerate() {
             m.insert(ReplicaId::new(*id), format!("peer{}", i));
         }
-        let mut cfg = ReplicationConfig::new_partitioned_cluster(spec.me, vec![], ring.replication_factor());
+        let mut cfg = ReplicationConfig::new_partitioned_cluster(spec.me, vec![], ring_rf);
         cfg.selective_gossip = spec.selective;
         (GossipRouter::new(arc, ReplicaId::new(spec.me), m, spec.selective), cfg)
     } else {
         let peers: Vec<String> = (0..spec.npeers).map(|i| format!("peer{}", i)).collect();
-        let mut cfg = ReplicationConfig::new_partitioned_cluster(spec.me, peers, ring.replication_factor());
+        let mut cfg = ReplicationConfig::new_partitioned_cluster(spec.me, peers, ring_rf);
         cfg.selective_gossip = spec.selective;
+        cfg.partitioned_mode = spec.partitioned;
+        cfg.enabled = spec.enabled;
         (GossipRouter::from_config(&cfg, arc), cfg)
     }
 }
@@ -246,14 +319,23 @@ fn router_ops(ctx: &mut Ctx, rng: &mut Rng, ring: &HashRing, members: &[u64], sp
         }
         l
     } else {
-        format!("RCFG {} {} {}", spec.me, spec.npeers, spec.selective as u8)
+        format!("RCFG {} {} {} {} {}", spec.me, spec.npeers, spec.selective as u8, spec.partitioned as u8, spec.enabled as u8)
     };
     let mut a = format!("peers self={} sel={}", rt.my_replica().0, rt.is_selective() as u8);
     for (id, addr) in &peers {
         a.push_str(&format!(" {}:{}", id, addr));
     }
     ctx.out.op(line, a);
-    ctx.out.count(&format!("router:{}:{}", spec.kind, if spec.selective { "selective" } else { "broadcast" }));
+    let selective = spec.effective_selective();
+    ctx.out.count(&format!("router:{}:{}", spec.kind, if selective { "selective" } else { "broadcast" }));
+    if spec.kind == "cfg" {
+        ctx.out.count(&format!("from_config:selective_gossip={}:partitioned_mode={}:enabled={}", spec.selective as u8, spec.partitioned as u8, spec.enabled as u8));
+    }
+    if rt.is_selective() != selective {
+        ctx.out.violation("C19:from_config:selective-mode",
+            &format!("the router is_selective() = {} for selective_gossip = {}, partitioned_mode = {}, enabled = {} (uses_selective_gossip is the conjunction)", rt.is_selective(), spec.selective, spec.partitioned, spec.enabled),
+            json!({"selective_gossip": spec.selective, "partitioned_mode": spec.partitioned, "enabled": spec.enabled, "is_selective": rt.is_selective()}));
+    }
 
     let replay = |what: &str, extra: serde_json::Value| {
         json!({"what": what, "members": members, "vnodes_rf": [ring.verif_ring_positions().len() / members.len().max(1), ring.replication_factor()],
@@ -314,7 +396,7 @@ fn router_ops(ctx: &mut Ctx, rng: &mut Rng, ring: &HashRing, members: &[u64], sp
         for t in everyone.iter() {
             let handed = tbl.get(t).map(|ds| ds.contains(&kps[i])).unwrap_or(false);
             let owner = owners.contains(t) && *t != spec.me;
-            if spec.selective && handed && !owner {
+            if selective && handed && !owner {
                 ctx.out.violation(&format!("C19:route:{}:non-owner-targeted", spec.kind),
                     "route_deltas hands a delta to a node that is not a responsible replica (or to the sender)",
                     replay("route", json!({"key": k, "owners": owners, "target": t})));
@@ -376,7 +458,7 @@ fn router_ops(ctx: &mut Ctx, rng: &mut Rng, ring: &HashRing, members: &[u64], sp
     }
     ctx.out.op(l, a);
     ctx.out.count(if hb >= 9_999 { "queue:near-capacity" } else { "queue:small" });
-    if spec.selective {
+    if selective {
         // the queued messages are the routing table
         if bad_envelope || targeted != tbl || !broadcast.is_empty() {
             ctx.out.violation("C19:queue:differs-from-routing-table",
@@ -386,6 +468,110 @@ fn router_ops(ctx: &mut Ctx, rng: &mut Rng, ring: &HashRing, members: &[u64], sp
     } else if !deltas.is_empty() && (broadcast.len() != 1 || broadcast[0] != kps || !targeted.is_empty() || bad_envelope) {
         ctx.out.violation("C19:queue:broadcast-incomplete", "broadcast mode did not queue one DeltaBatch with all deltas",
             replay("queue", json!({"broadcast": broadcast})));
+    }
+
+    // ---- route_with_stats / calculate_reduction_ratio: the table must be route_deltas', the counters consistent
+    {
+        let (t2, st) = rt.route_with_stats(deltas.clone());
+        let mut tbl2: BTreeMap<u64, Vec<u64>> = BTreeMap::new();
+        for (t, ds) in &t2 {
+            tbl2.insert(t.0, ds.iter().map(|d| HashRing::verif_key_position(&d.key)).collect());
+        }
+        let mut l = format!("ROUTES {}", kps.len());
+        for k in &kps {
+            l.push_str(&format!(" {}", k));
+        }
+        let mut a = "tbl".to_string();
+        for (t, ds) in &tbl2 {
+            a.push_str(&format!(" {}:{}", t, csv(ds)));
+        }
+        a.push_str(&format!(" | stats {} {} {} {}", st.total_deltas, st.total_assignments, st.assignments_saved, st.unique_targets));
+        ctx.out.op(l, a);
+        if tbl2 != tbl {
+            ctx.out.violation("C19:route:with-stats-differs", "route_with_stats returns a different table than route_deltas", replay("route_with_stats", json!({"table": tbl, "with_stats": tbl2})));
+        }
+        let refs: Vec<&str> = dkeys.iter().map(|k| k.as_str()).collect();
+        let (sel_msgs, bc_msgs, _) = rt.calculate_reduction_ratio(&refs);
+        let mut l = format!("RATIO {}", kps.len());
+        for k in &kps {
+            l.push_str(&format!(" {}", k));
+        }
+        ctx.out.op(l, format!("ratio {} {}", sel_msgs, bc_msgs));
+    }
+
+    // ---- dynamic membership of the address book (update_peer / remove_peer) and of the SHARED ring:
+    // the router holds an Arc<RwLock<HashRing>>; a change made through it is seen by the next route
+    if spec.kind == "new" && !keys.is_empty() {
+        let (mut rt3, _, shared) = build_router_shared(spec, ring);
+        let mut book = peers.clone();
+        for _ in 0..rng.range(1, 3) {
+            if rng.chance(1, 2) {
+                let id = if rng.chance(2, 3) && !members.is_empty() { *rng.pick(members) } else { rng.below(12) };
+                let addr = 100 + rng.below(50);
+                rt3.update_peer(ReplicaId::new(id), format!("peer{}", addr));
+                book.insert(id, addr);
+                let mut a = format!("peers self={} sel={}", rt3.my_replica().0, rt3.is_selective() as u8);
+                for (i, ad) in &peers_of(&rt3) {
+                    a.push_str(&format!(" {}:{}", i, ad));
+                }
+                ctx.out.op(format!("RUPD {} {}", id, addr), a);
+                ctx.out.count("router:update_peer");
+            } else {
+                let id = if rng.chance(2, 3) && !book.is_empty() { *book.keys().nth(rng.below(book.len() as u64) as usize).unwrap() } else { rng.below(12) };
+                rt3.remove_peer(ReplicaId::new(id));
+                book.remove(&id);
+                let mut a = format!("peers self={} sel={}", rt3.my_replica().0, rt3.is_selective() as u8);
+                for (i, ad) in &peers_of(&rt3) {
+                    a.push_str(&format!(" {}:{}", i, ad));
+                }
+                ctx.out.op(format!("RREM {}", id), a);
+                ctx.out.count("router:remove_peer");
+            }
+            if peers_of(&rt3) != book {
+                ctx.out.violation("C19:router:address-book", "update_peer / remove_peer did not leave the expected address book", replay("address book", json!({"expected": book, "got": peers_of(&rt3)})));
+            }
+        }
+        // membership change through the shared ring
+        let x = if rng.chance(1, 2) && !members.is_empty() { *rng.pick(members) } else { rng.range(1, 9) };
+        let add = !members.contains(&x) || rng.chance(1, 4);
+        if add {
+            ctx.define(x);
+            shared.write().unwrap().add_node(ReplicaId::new(x));
+        } else {
+            shared.write().unwrap().remove_node(ReplicaId::new(x));
+        }
+        let now = shared.read().unwrap().clone();
+        let (sum, _) = ring_summary(&now);
+        ctx.out.op(format!("{} {}", if add { "ADD" } else { "REM" }, x), sum);
+        ctx.out.count("router:shared-ring-changed-after-construction");
+        let table = rt3.route_deltas(deltas.clone());
+        let mut tbl3: BTreeMap<u64, Vec<u64>> = BTreeMap::new();
+        for (t, ds) in &table {
+            tbl3.insert(t.0, ds.iter().map(|d| HashRing::verif_key_position(&d.key)).collect());
+        }
+        let mut l = format!("ROUTE {}", kps.len());
+        for k in &kps {
+            l.push_str(&format!(" {}", k));
+        }
+        let mut a = "tbl".to_string();
+        for (t, ds) in &tbl3 {
+            a.push_str(&format!(" {}:{}", t, csv(ds)));
+        }
+        ctx.out.op(l, a);
+        if selective {
+            for (i, k) in dkeys.iter().enumerate() {
+                let owners = ids(&now.get_replicas(k));
+                for (t, _) in book.iter() {
+                    let handed = tbl3.get(t).map(|ds| ds.contains(&kps[i])).unwrap_or(false);
+                    let owner = owners.contains(t) && *t != spec.me;
+                    if handed != owner {
+                        ctx.out.violation(if owner { "C19:route:shared-ring:owner-starved" } else { "C19:route:shared-ring:non-owner-targeted" },
+                            "after a membership change made through the shared ring, route_deltas does not follow the CURRENT replica lists",
+                            replay("route after membership change", json!({"key": k, "owners_now": owners, "target": t, "change": if add { "add_node" } else { "remove_node" }, "node": x})));
+                    }
+                }
+            }
+        }
     }
 }
 
@@ -516,6 +702,23 @@ fn scenario(ctx: &mut Ctx, rng: &mut Rng, thorough: bool, idx: u64) {
         }
     }
 
+    // ---- the remaining observers of the ring
+    {
+        let pairs: Vec<(String, u64)> = (0..6).map(|_| (rng.pick(&keys).clone(), if !members.is_empty() && rng.chance(3, 4) { *rng.pick(&members) } else { *rng.pick(&universe) })).collect();
+        ctx.op_observers(&ring, &pairs, rng.below(8) as usize);
+        if rng.chance(1, 3) {
+            ctx.op_stats(&ring, &keys);
+        }
+    }
+    // ---- per-key replication factor from the real AdaptiveReplicationManager (hot keys get hot_key_rf)
+    if rng.chance(1, 3) {
+        adaptive_ops(ctx, rng, &ring, &members, vnodes, &keys, idx);
+    }
+    // ---- GossipState as a state machine (direct and through the GossipActor)
+    if rng.chance(1, 4) && !members.is_empty() {
+        gossip_state_session(ctx, rng, &ring, &members, &keys);
+    }
+
     // ---- add / remove sequence
     let steps = rng.range(2, 5);
     let mut before = ring_replicas(&ring, &keys);
@@ -557,6 +760,48 @@ fn scenario(ctx: &mut Ctx, rng: &mut Rng, thorough: bool, idx: u64) {
         before = after;
     }
 
+    // ---- history shapes: the ring emptied completely and refilled in another order; with_defaults
+    if rng.chance(1, 6) && !members.is_empty() {
+        let old = members.clone();
+        for m in &old {
+            ring.remove_node(ReplicaId::new(*m));
+            let (s, _) = ring_summary(&ring);
+            ctx.out.op(format!("REM {}", m), s);
+        }
+        let mut back = old.clone();
+        rng.shuffle(&mut back);
+        for m in &back {
+            ring.add_node(ReplicaId::new(*m));
+            let (s, _) = ring_summary(&ring);
+            ctx.out.op(format!("ADD {}", m), s);
+        }
+        ctx.out.count("history:emptied-then-refilled");
+        let after = ctx.op_replicas(&ring, &keys, None);
+        if after != before && ring.verif_ring_positions().windows(2).all(|w| w[0].0 != w[1].0) {
+            ctx.out.violation("C19:order:refilled-ring-differs", "a ring emptied and refilled with the same members places keys differently",
+                json!({"members_before": old, "rejoin_order": back, "vnodes": vnodes, "rf": rf}));
+        }
+        members = ids(ring.nodes());
+    }
+    if rng.chance(1, 12) {
+        let k = rng.range(1, 5);
+        let seq: Vec<u64> = (1..=k).collect();
+        let rd = ctx.op_new_defaults(&seq);
+        let reps = ctx.op_replicas(&rd, &keys, None);
+        for (i, r) in reps.iter().enumerate() {
+            check_count(&mut ctx.out, r, 3, &seq, 150, json!({"api": "with_defaults", "nodes": seq, "key": keys[i], "replicas": r}));
+        }
+        ctx.out.count("ring:with_defaults");
+        // the model's current ring must be the scenario's again
+        let cur: Vec<u64> = ids(ring.nodes());
+        let fresh = ctx.op_new(&cur, vnodes, rf);
+        if fresh.verif_ring_positions() != ring.verif_ring_positions() {
+            ctx.out.count("excluded:rebuilt-ring-differs(position-collision)");
+        }
+        // version restarts with a fresh ring: continue on the fresh one
+        ring = fresh;
+    }
+
     // ---- routers on the current ring (explicit address book)
     if !members.is_empty() {
         let me = if rng.chance(5, 6) { *rng.pick(&members) } else { *rng.pick(&universe) };
@@ -571,7 +816,7 @@ fn scenario(ctx: &mut Ctx, rng: &mut Rng, thorough: bool, idx: u64) {
             _ => {}
         }
         rng.shuffle(&mut peer_ids);
-        let spec = RouterSpec { kind: "new", me, selective: !rng.chance(1, 5), peer_ids, npeers: 0 };
+        let spec = RouterSpec { kind: "new", me, selective: !rng.chance(1, 5), peer_ids, npeers: 0, partitioned: true, enabled: true };
         router_ops(ctx, rng, &ring, &members, &spec, &keys, &format!("case {}", idx));
     }
 
@@ -591,8 +836,13 @@ fn scenario(ctx: &mut Ctx, rng: &mut Rng, thorough: bool, idx: u64) {
             1 if n >= 2 => n as usize - 2, // one too few
             _ => n as usize - 1,
         };
-        let spec = RouterSpec { kind: "cfg", me, selective: !rng.chance(1, 6), peer_ids: vec![], npeers };
+        // every field uses_selective_gossip reads is generated: selective_gossip, partitioned_mode, enabled
+        let spec = RouterSpec { kind: "cfg", me, selective: !rng.chance(1, 6), peer_ids: vec![], npeers, partitioned: !rng.chance(1, 8), enabled: !rng.chance(1, 8) };
         router_ops(ctx, rng, &r, &seq, &spec, &keys, &format!("case {}", idx));
+        if rng.chance(1, 40) {
+            let dk: Vec<String> = (0..rng.range(1, 4)).map(|_| rng.pick(&keys).clone()).collect();
+            gossip_loop_ops(ctx, &r, &seq, &spec, &dk, if rng.chance(1, 2) { "lock" } else { "actor" }, &format!("case {}", idx));
+        }
     }
 
     // ---- GossipState without router: broadcast
@@ -620,6 +870,366 @@ fn scenario(ctx: &mut Ctx, rng: &mut Rng, thorough: bool, idx: u64) {
     }
 }
 
+
+/// per-key replication factor: the REAL AdaptiveReplicationManager decides which keys are hot
+/// (its detector is float-based and not modelled: the op line carries the hot set it reports);
+/// the model answers the rf of every key and the replica list for that rf
+fn adaptive_ops(ctx: &mut Ctx, rng: &mut Rng, ring: &HashRing, members: &[u64], vnodes: u32, keys: &[String], idx: u64) {
+    use redis_sim::production::{AdaptiveConfig, AdaptiveReplicationManager};
+    let mut cfg = match rng.below(4) {
+        0 => AdaptiveConfig::default(),
+        1 => AdaptiveConfig::high_throughput(),
+        2 => AdaptiveConfig::low_latency(),
+        _ => AdaptiveConfig { base_rf: rng.below(5) as u8, hot_key_rf: rng.below(8) as u8, ..AdaptiveConfig::default() },
+    };
+    cfg.hotkey_config.hot_threshold = 1.0;
+    cfg.recalc_interval_ms = if rng.chance(1, 2) { 1 } else { u64::MAX };
+    let (base, hot) = (cfg.base_rf, cfg.hot_key_rf);
+    let mut mgr = AdaptiveReplicationManager::new(cfg);
+    let hot_keys: Vec<&String> = keys.iter().filter(|_| rng.chance(1, 3)).collect();
+    let mut now = 1_000u64;
+    for _ in 0..40 {
+        for k in &hot_keys {
+            mgr.observe(k, rng.chance(1, 2), now);
+        }
+        now += 10;
+    }
+    for k in keys.iter().take(3) {
+        mgr.observe(k, false, now); // a single access: cold
+    }
+    mgr.force_recalculate(now);
+    let overrides: BTreeMap<String, u8> = mgr.get_hot_key_updates().into_iter().collect();
+    ctx.out.count(&format!("adaptive:hot-keys:{}", match overrides.len() { 0 => "0", 1..=3 => "1-3", _ => "4+" }));
+    ctx.out.count(&format!("adaptive:{}", if hot > base { "hot_rf>base_rf" } else if hot == base { "hot_rf=base_rf" } else { "hot_rf<base_rf" }));
+    // ARF <base> <hot> <nhot> <hot keypos>* <m> <keypos>*
+    let mut l = format!("ARF {} {} {}", base, hot, overrides.len());
+    for k in overrides.keys() {
+        l.push_str(&format!(" {}", HashRing::verif_key_position(k)));
+    }
+    l.push_str(&format!(" {}", keys.len()));
+    let mut a = Vec::new();
+    for k in keys {
+        l.push_str(&format!(" {}", HashRing::verif_key_position(k)));
+        let rf = mgr.get_rf_for_key(k);
+        let reps = ids(&ring.get_replicas_with_rf(k, rf as usize));
+        let base_reps = ids(&ring.get_replicas_with_rf(k, base as usize));
+        a.push(format!("{}:{}", rf, csv(&reps)));
+        let want_rf = if overrides.contains_key(k) { hot } else { base };
+        if rf != want_rf || overrides.get(k).map(|x| *x != hot).unwrap_or(false) {
+            ctx.out.violation("C19:adaptive:rf-not-base-or-hot", &format!("get_rf_for_key({:?}) = {}, the key is {} (base_rf {}, hot_key_rf {})", k, rf, if overrides.contains_key(k) { "hot" } else { "not hot" }, base, hot),
+                json!({"key": k, "rf": rf, "base_rf": base, "hot_key_rf": hot, "hot_keys": overrides.keys().collect::<Vec<_>>()}));
+        }
+        check_count(&mut ctx.out, &reps, rf as usize, members, vnodes, json!({"api": "get_replicas_with_rf(key, AdaptiveReplicationManager::get_rf_for_key(key))", "key": k, "rf": rf, "replicas": reps, "case": idx}));
+        // promotion only adds owners / demotion only drops the added ones: the shorter list is a prefix
+        let (short, long) = if reps.len() <= base_reps.len() { (&reps, &base_reps) } else { (&base_reps, &reps) };
+        if long[..short.len()] != short[..] {
+            ctx.out.violation("C19:adaptive:rf-change-moves-owners",
+                &format!("key {:?}: the replica list for rf {} is {:?}, for base_rf {} it is {:?}: neither is a prefix of the other, changing the RF of a key moves it between nodes", k, rf, reps, base, base_reps),
+                json!({"key": k, "rf": rf, "replicas": reps, "base_rf": base, "base_replicas": base_reps, "members": members}));
+        }
+    }
+    ctx.out.op(l, format!("a {}", a.join("|")));
+}
+
+/// GossipState as a state machine: heartbeats, epochs, queue_deltas / queue_deltas_broadcast,
+/// set_router, is_selective, drain — driven twice with the same script: directly, and through the
+/// GossipActor (the production entry path); one op stream, both must answer it
+fn gossip_state_session(ctx: &mut Ctx, rng: &mut Rng, ring: &HashRing, members: &[u64], keys: &[String]) {
+    use redis_sim::production::GossipActor;
+    let me = *rng.pick(members);
+    let peer_ids: Vec<u64> = members.iter().cloned().filter(|m| *m != me).collect();
+    let spec = RouterSpec { kind: "new", me, selective: !rng.chance(1, 4), peer_ids, npeers: 0, partitioned: true, enabled: true };
+    // the model's current router becomes this one
+    let (rt0, cfg) = build_router(&spec, ring);
+    let mut l = format!("RNEW {} {} {}", spec.me, spec.selective as u8, spec.peer_ids.len());
+    for p in &spec.peer_ids {
+        l.push_str(&format!(" {}", p));
+    }
+    let mut a = format!("peers self={} sel={}", rt0.my_replica().0, rt0.is_selective() as u8);
+    for (id, addr) in &peers_of(&rt0) {
+        a.push_str(&format!(" {}:{}", id, addr));
+    }
+    ctx.out.op(l, a);
+    // script
+    #[derive(Clone)]
+    enum Step { Hb(u64), Adv(u64), Q(Vec<String>), Qb(Vec<String>), Set, Sel, Drain }
+    let with_router = rng.chance(2, 3);
+    let mut script = Vec::new();
+    for _ in 0..rng.range(3, 9) {
+        script.push(match rng.below(9) {
+            0 => Step::Hb(rng.range(1, 3)),
+            1 | 2 => Step::Adv(rng.range(1, 3)),
+            3 | 4 | 5 => Step::Q((0..rng.range(0, 4)).map(|_| rng.pick(keys).clone()).collect()),
+            6 => Step::Qb((0..rng.range(0, 3)).map(|_| rng.pick(keys).clone()).collect()),
+            7 => Step::Set,
+            _ => if rng.chance(1, 2) { Step::Sel } else { Step::Drain },
+        });
+    }
+    script.push(Step::Sel);
+    script.push(Step::Drain);
+    let show = |q: &Vec<redis_sim::replication::gossip::RoutedMessage>, me: u64| -> (String, bool) {
+        let mut es: Vec<String> = Vec::new();
+        let mut bad = false;
+        for m in q {
+            match &m.message {
+                GossipMessage::Heartbeat { source_replica, epoch } => {
+                    bad |= source_replica.0 != me || m.target.is_some();
+                    es.push(format!("H@{}", epoch));
+                }
+                GossipMessage::TargetedDelta { source_replica, target_replica, deltas, epoch } => {
+                    bad |= source_replica.0 != me || m.target != Some(*target_replica);
+                    es.push(format!("T{}@{}:{}", target_replica.0, epoch, csv(&deltas.iter().map(|d| HashRing::verif_key_position(&d.key)).collect::<Vec<_>>())));
+                }
+                GossipMessage::DeltaBatch { source_replica, deltas, epoch } => {
+                    bad |= source_replica.0 != me || m.target.is_some();
+                    es.push(format!("B@{}:{}", epoch, csv(&deltas.iter().map(|d| HashRing::verif_key_position(&d.key)).collect::<Vec<_>>())));
+                }
+                _ => bad = true,
+            }
+        }
+        es.sort();
+        (std::iter::once(format!("q {}", q.len())).chain(es).collect::<Vec<_>>().join(" "), bad)
+    };
+    let kp = |ks: &[String]| -> String { std::iter::once(ks.len().to_string()).chain(ks.iter().map(|k| HashRing::verif_key_position(k).to_string())).collect::<Vec<_>>().join(" ") };
+    // ---- direct
+    let mut answers_direct: Vec<String> = Vec::new();
+    {
+        let mut gs = if with_router { GossipState::with_router(cfg.clone(), build_router(&spec, ring).0) } else { GossipState::new(cfg.clone()) };
+        ctx.out.op(format!("GNEW {} {}", me, with_router as u8), "g ok".into());
+        for st in &script {
+            match st {
+                Step::Hb(n) => { for _ in 0..*n { gs.queue_heartbeat(); } ctx.out.op(format!("GHB {}", n), "g ok".into()); }
+                Step::Adv(n) => { for _ in 0..*n { gs.advance_epoch(); } ctx.out.op(format!("GADV {}", n), "g ok".into()); }
+                Step::Q(ks) => { gs.queue_deltas(ks.iter().map(|k| mk_delta(k, me)).collect()); ctx.out.op(format!("GQ {}", kp(ks)), "g ok".into()); }
+                Step::Qb(ks) => { gs.queue_deltas_broadcast(ks.iter().map(|k| mk_delta(k, me)).collect()); ctx.out.op(format!("GQB {}", kp(ks)), "g ok".into()); }
+                Step::Set => { gs.set_router(build_router(&spec, ring).0); ctx.out.op("GSET".into(), "g ok".into()); }
+                Step::Sel => { let a = format!("sel {}", gs.is_selective() as u8); answers_direct.push(a.clone()); ctx.out.op("GSEL".into(), a); }
+                Step::Drain => {
+                    let q = gs.drain_outbound();
+                    let (a, bad) = show(&q, me);
+                    if bad {
+                        ctx.out.violation("C19:gossip-state:envelope", "a queued message has a wrong source replica / target envelope", json!({"queue": a}));
+                    }
+                    answers_direct.push(a.clone());
+                    ctx.out.op("GDRAIN".into(), a);
+                }
+            }
+        }
+        ctx.out.count("gossip-state:session:direct");
+    }
+    // ---- the same script through the GossipActor
+    {
+        let rt = tokio::runtime::Builder::new_current_thread().enable_all().build().unwrap();
+        let answers_actor: Vec<String> = rt.block_on(async {
+            let h = if with_router { GossipActor::spawn_with_router(cfg.clone(), build_router(&spec, ring).0) } else { GossipActor::spawn(cfg.clone()) };
+            let mut res = Vec::new();
+            for st in &script {
+                match st {
+                    Step::Hb(n) => { for _ in 0..*n { h.queue_heartbeat(); } }
+                    Step::Adv(n) => { for _ in 0..*n { h.advance_epoch(); } }
+                    Step::Q(ks) => h.queue_deltas(ks.iter().map(|k| mk_delta(k, me)).collect()),
+                    Step::Qb(ks) => h.queue_deltas_broadcast(ks.iter().map(|k| mk_delta(k, me)).collect()),
+                    Step::Set => h.set_router(build_router(&spec, ring).0),
+                    Step::Sel => res.push(format!("sel {}", h.is_selective().await as u8)),
+                    Step::Drain => { let q = h.drain_outbound().await; res.push(show(&q, me).0); }
+                }
+            }
+            h.shutdown().await;
+            res
+        });
+        ctx.out.count("gossip-state:session:via-actor");
+        if answers_actor != answers_direct {
+            ctx.out.violation("C19:gossip-actor:differs-from-gossip-state",
+                "the same script of queue_heartbeat / advance_epoch / queue_deltas / queue_deltas_broadcast / set_router / drain gives different outbound messages through the GossipActor than on the GossipState",
+                json!({"direct": answers_direct, "via_actor": answers_actor, "self": me, "with_router": with_router}));
+        }
+    }
+}
+
+/// ONE tick of a gossip loop of production/gossip_manager.rs (`start_gossip_loop` over a locked
+/// GossipState, or `start_gossip_loop_with_actor`) over real loopback TCP: `npeers` listeners stand
+/// for the configured peers (index i of config.peers = member memberOfIndex(me, i)); the state
+/// carries the from_config router; the batch is handed out by collect_deltas once.  Observed: which
+/// key positions each configured peer receives.
+fn gossip_loop_ops(ctx: &mut Ctx, ring: &HashRing, members: &[u64], spec: &RouterSpec, dkeys: &[String], kind: &str, src: &str) {
+    use redis_sim::production::{GossipActor, GossipManager};
+    use std::sync::atomic::{AtomicUsize, Ordering};
+    use std::sync::Mutex;
+    let me = spec.me;
+    let n = spec.npeers;
+    let rt = tokio::runtime::Builder::new_current_thread().enable_all().build().unwrap();
+    let received: Vec<Arc<Mutex<Vec<GossipMessage>>>> = (0..n).map(|_| Arc::new(Mutex::new(Vec::new()))).collect();
+    let batch: Vec<ReplicationDelta> = dkeys.iter().map(|k| mk_delta(k, me)).collect();
+    let ring_arc = Arc::new(RwLock::new(ring.clone()));
+    let outcome: Result<(), String> = rt.block_on(async {
+        use tokio::io::AsyncReadExt;
+        let mut addrs = Vec::new();
+        for i in 0..n {
+            let l = tokio::net::TcpListener::bind("127.0.0.1:0").await.map_err(|e| format!("bind: {}", e))?;
+            addrs.push(l.local_addr().map_err(|e| format!("addr: {}", e))?.to_string());
+            let sink = received[i].clone();
+            tokio::spawn(async move {
+                loop {
+                    let (mut s, _) = match l.accept().await { Ok(x) => x, Err(_) => break };
+                    let sink = sink.clone();
+                    tokio::spawn(async move {
+                        loop {
+                            let mut len = [0u8; 4];
+                            if s.read_exact(&mut len).await.is_err() { break; }
+                            let mut buf = vec![0u8; u32::from_be_bytes(len) as usize];
+                            if s.read_exact(&mut buf).await.is_err() { break; }
+                            if let Ok(m) = GossipMessage::deserialize(&buf) { sink.lock().unwrap().push(m); }
+                        }
+                    });
+                }
+            });
+        }
+        let mut cfg = ReplicationConfig::new_partitioned_cluster(me, addrs, ring.replication_factor());
+        cfg.selective_gossip = spec.selective;
+        cfg.partitioned_mode = spec.partitioned;
+        cfg.enabled = spec.enabled;
+        cfg.gossip_interval_ms = 1;
+        let router = GossipRouter::from_config(&cfg, ring_arc.clone());
+        let calls = Arc::new(AtomicUsize::new(0));
+        let (tx, rx) = tokio::sync::oneshot::channel::<()>();
+        let tx = Mutex::new(Some(tx));
+        let c2 = calls.clone();
+        let b2 = batch.clone();
+        let collect = move || {
+            let k = c2.fetch_add(1, Ordering::SeqCst);
+            if k == 0 { b2.clone() } else {
+                // the second call: every send of the first tick has completed
+                if let Some(t) = tx.lock().unwrap().take() { let _ = t.send(()); }
+                Vec::new()
+            }
+        };
+        let task = if kind == "lock" {
+            let state = Arc::new(parking_lot::RwLock::new(GossipState::with_router(cfg.clone(), router)));
+            tokio::spawn(GossipManager::start_gossip_loop(cfg.clone(), state, collect))
+        } else {
+            let handle = GossipActor::spawn_with_router(cfg.clone(), router);
+            tokio::spawn(GossipManager::start_gossip_loop_with_actor(cfg.clone(), handle, collect))
+        };
+        let done = tokio::time::timeout(std::time::Duration::from_secs(5), rx).await;
+        tokio::time::sleep(std::time::Duration::from_millis(15)).await; // the listeners drain their sockets
+        task.abort();
+        match done { Ok(_) => Ok(()), Err(_) => Err("the loop did not come back for a second batch within 5 s".to_string()) }
+    });
+    drop(rt);
+    if let Err(e) = outcome {
+        ctx.out.violation("C19:gossip-loop:harness", &format!("the gossip loop could not be driven: {}", e), json!({"kind": kind, "source": src}));
+        return;
+    }
+    // what each configured peer received
+    let mut rows: Vec<Vec<u64>> = Vec::new();
+    for i in 0..n {
+        let mut kps = Vec::new();
+        for m in received[i].lock().unwrap().iter() {
+            match m {
+                GossipMessage::TargetedDelta { deltas, .. } | GossipMessage::DeltaBatch { deltas, .. } => kps.extend(deltas.iter().map(|d| HashRing::verif_key_position(&d.key))),
+                _ => {}
+            }
+        }
+        rows.push(kps);
+    }
+    let mut l = format!("LOOP {} {} {} {} {} {}", me, n, spec.selective as u8, spec.partitioned as u8, spec.enabled as u8, dkeys.len());
+    for k in dkeys {
+        l.push_str(&format!(" {}", HashRing::verif_key_position(k)));
+    }
+    ctx.out.op(l, format!("loop {}", rows.iter().enumerate().map(|(i, r)| format!("{}:{}", i, csv(r))).collect::<Vec<_>>().join("|")));
+    ctx.out.count(&format!("gossip-loop:{}:{}", kind, if spec.effective_selective() { "selective" } else { "broadcast" }));
+    // oracle: every responsible replica other than the sender receives the delta; the member behind
+    // peer index i is the i-th member of 1..=n+1 with `me` left out
+    let member_of = |i: usize| -> u64 { if i as u64 + 1 >= me { i as u64 + 2 } else { i as u64 + 1 } };
+    let seq_cluster = me >= 1 && me as usize <= n + 1 && members.iter().all(|m| *m >= 1 && *m as usize <= n + 1);
+    if !seq_cluster {
+        ctx.out.count("excluded:gossip-loop:not-a-sequential-cluster");
+        return;
+    }
+    let pinned_id = |i: usize| -> u64 { if i as u64 >= me { i as u64 + 2 } else { i as u64 + 1 } };
+    for k in dkeys {
+        let kp = HashRing::verif_key_position(k);
+        let owners = ids(&ring.get_replicas(k));
+        for i in 0..n {
+            let t = member_of(i);
+            let got = rows[i].contains(&kp);
+            let owner = owners.contains(&t);
+            let replay = json!({"loop": if kind == "lock" { "GossipManager::start_gossip_loop" } else { "GossipManager::start_gossip_loop_with_actor" },
+                "replica_id": me, "peers": (0..n).map(|j| format!("address of member {}", member_of(j))).collect::<Vec<_>>(), "members": members,
+                "rf": ring.replication_factor(), "key": k, "owners": owners, "peer_index": i, "member": t, "received_by_peer": rows, "source": src});
+            if spec.effective_selective() {
+                if owner && !got {
+                    // cause: the loop's own address map gives index i the id pinned_id(i) != t
+                    let by_map = (0..n).find(|j| pinned_id(*j) == t);
+                    if by_map != Some(i) {
+                        ctx.out.violation("C19:gossip-loop:peer-map:off-by-one",
+                            &format!("{}: replica {} (peers = the other members of 1..={}) queues a TargetedDelta for owner {} of key {:?}, but the loop's own address map (`if i >= replica_id {{ i + 2 }} else {{ i + 1 }}`) registers peer index {} as id {}: {}: owner {} receives nothing",
+                                if kind == "lock" { "start_gossip_loop" } else { "start_gossip_loop_with_actor" }, me, n + 1, t, k, i, pinned_id(i),
+                                match by_map { None => format!("there is no address for id {}", t), Some(j) => format!("id {} is peer index {}, i.e. member {}", t, j, member_of(j)) }, t),
+                            replay);
+                    } else {
+                        ctx.out.violation("C19:gossip-loop:owner-starved", &format!("the gossip loop does not deliver the delta for key {:?} to owner {}", k, t), replay);
+                    }
+                } else if !owner && got {
+                    ctx.out.violation("C19:gossip-loop:non-owner-targeted", &format!("the gossip loop delivers the delta for key {:?} to member {}, which is not a responsible replica", k, t), replay);
+                }
+            } else if !got {
+                ctx.out.violation("C19:gossip-loop:broadcast-incomplete", &format!("broadcast mode: member {} did not receive the delta for key {:?}", t, k), replay);
+            }
+        }
+    }
+}
+
+/// configuration extremes of the gossip loops: `gossip_interval_ms` (a plain u64) at 0 / 1 / u64::MAX —
+/// does the loop start and make its first tick?
+fn gossip_loop_interval_probe(ctx: &mut Ctx) {
+    use redis_sim::production::{GossipActor, GossipManager};
+    use std::sync::atomic::{AtomicUsize, Ordering};
+    for interval_ms in [0u64, 1, u64::MAX] {
+        for kind in ["lock", "actor"] {
+            let rt = tokio::runtime::Builder::new_current_thread().enable_all().build().unwrap();
+            let prev = std::panic::take_hook();
+            std::panic::set_hook(Box::new(|_| {}));
+            let res: Result<usize, String> = rt.block_on(async {
+                let mut cfg = ReplicationConfig::new_partitioned_cluster(1, vec![], 3);
+                cfg.gossip_interval_ms = interval_ms;
+                let calls = Arc::new(AtomicUsize::new(0));
+                let c2 = calls.clone();
+                let collect = move || { c2.fetch_add(1, Ordering::SeqCst); Vec::new() };
+                let task = if kind == "lock" {
+                    let state = Arc::new(parking_lot::RwLock::new(GossipState::new(cfg.clone())));
+                    tokio::spawn(GossipManager::start_gossip_loop(cfg.clone(), state, collect))
+                } else {
+                    tokio::spawn(GossipManager::start_gossip_loop_with_actor(cfg.clone(), GossipActor::spawn(cfg.clone()), collect))
+                };
+                tokio::time::sleep(std::time::Duration::from_millis(20)).await;
+                if task.is_finished() {
+                    match task.await {
+                        Err(e) if e.is_panic() => {
+                            let p = e.into_panic();
+                            Err(p.downcast_ref::<String>().cloned().or_else(|| p.downcast_ref::<&str>().map(|x| x.to_string())).unwrap_or_default())
+                        }
+                        _ => Err("the loop returned".to_string()),
+                    }
+                } else {
+                    task.abort();
+                    Ok(calls.load(Ordering::SeqCst))
+                }
+            });
+            std::panic::set_hook(prev);
+            ctx.out.count(&format!("gossip-loop:interval-probe:{}", if interval_ms == u64::MAX { "max".to_string() } else { interval_ms.to_string() }));
+            ctx.out.op(format!("LOOPI {}", interval_ms), match &res { Ok(_) => "runs".to_string(), Err(m) if m.contains("must be non-zero") => "panic zero-period".to_string(), Err(m) => format!("panic {}", m.replace(' ', "_")) });
+            match res {
+                Ok(n) if n >= 1 => {}
+                Ok(_) => ctx.out.violation("C19:gossip-loop:config:no-first-tick", &format!("gossip_interval_ms = {}: the loop never asked for deltas", interval_ms), json!({"gossip_interval_ms": interval_ms, "loop": kind})),
+                Err(msg) => ctx.out.violation(&format!("C19:gossip-loop:config:gossip_interval_ms={}:panics", if interval_ms == u64::MAX { "max".to_string() } else { interval_ms.to_string() }),
+                    &format!("ReplicationConfig {{ gossip_interval_ms: {} }} is accepted and the gossip loop ({}) then dies at start ({}): no update is ever sent to any owner", interval_ms, if kind == "lock" { "start_gossip_loop" } else { "start_gossip_loop_with_actor" }, msg),
+                    json!({"gossip_interval_ms": interval_ms, "loop": kind, "observed": msg, "expected": "a running loop, or a rejected configuration"})),
+            }
+        }
+    }
+}
+
 fn ring_replicas(r: &HashRing, keys: &[String]) -> Vec<Vec<u64>> {
     keys.iter().map(|k| ids(&r.get_replicas(k))).collect()
 }
@@ -633,8 +1243,12 @@ fn witness_from_config(ctx: &mut Ctx, rng: &mut Rng) {
     ctx.op_key_positions(&keys);
     ctx.op_replicas(&r, &keys, None);
     for me in 1..=3u64 {
-        let spec = RouterSpec { kind: "cfg", me, selective: true, peer_ids: vec![], npeers: 2 };
+        let spec = RouterSpec { kind: "cfg", me, selective: true, peer_ids: vec![], npeers: 2, partitioned: true, enabled: true };
         router_ops(ctx, rng, &r, &seq, &spec, &keys, "corpus: from_config, 3-node cluster, rf 3");
+        // the gossip loops of production/gossip_manager.rs with the same configuration, over real TCP
+        for kind in ["lock", "actor"] {
+            gossip_loop_ops(ctx, &r, &seq, &spec, &keys, kind, "corpus: gossip loop, 3-node cluster, rf 3, from_config router");
+        }
     }
 }
 
@@ -646,6 +1260,7 @@ pub fn run(a: &Args) {
     let mut wr = Rng::new(7);
     ctx.op_sip(&mut wr, 40);
     witness_from_config(&mut ctx, &mut wr);
+    gossip_loop_interval_probe(&mut ctx);
     for i in 0..a.n {
         scenario(&mut ctx, &mut rng, thorough, i);
     }
